@@ -1,6 +1,1429 @@
-//! C06 — not built yet.
+//! C06 — a signature is accepted only for the exact RRset, key and time window.
+//!
+//! Pure part through the hook `hickory_net::dnssec::verif_hooks::verify_rrset_with_dnskey`
+//! (`vk` lines: field-by-field / bit-by-bit mutations of RRset, RRSIG, DNSKEY, clock offsets), plus
+//! `serial` (`SerialNumber::partial_cmp`), `tag` (`DNSKEY::calculate_key_tag_internal`), `attl`
+//! (`RRSIG::authenticated_ttl`).  History part (`begin` / `h` / `end` blocks) through
+//! `DnssecDnsHandle::send` over a scripted upstream `DnsHandle` whose `Runtime::Timer::current_time`
+//! is a controllable counter: observes `Record.proof` / `Record.ttl` of the returned response and
+//! whether the verdict was freshly computed (the upstream saw a DNSKEY query) or came from the
+//! `ValidationCache`.
+//!
+//! Oracle (independent of the model): a Secure verdict is acceptable only if the key is a trusted,
+//! non-revoked zone key whose owner / algorithm / key tag match the RRSIG, the RRSIG's owner, class,
+//! type covered and Labels fit the RRset, the validator's clock is inside [inception, expiration]
+//! in serial arithmetic, and the signature verifies (ring) over the *reference* RFC 4035 §5.3.2
+//! bytes of exactly these records (encoder of c05.rs); the TTL handed out must not exceed the
+//! remaining signature lifetime nor the original TTL.
+use std::collections::HashMap;
+use std::future::Future;
+use std::hash::{Hash, Hasher};
+use std::io;
+use std::net::SocketAddr;
+use std::pin::Pin;
+use std::sync::atomic::{AtomicU64, AtomicUsize, Ordering as AtOrd};
+use std::sync::{Arc, Mutex};
+use std::time::Duration;
+
+use futures_util::stream::{self, Stream};
+use hickory_net::dnssec::DnssecDnsHandle;
+use hickory_net::dnssec::verif_hooks::verify_rrset_with_dnskey;
+use hickory_net::runtime::{RuntimeProvider, Time, TokioRuntimeProvider, TokioTime};
+use hickory_net::xfer::{DnsHandle, FirstAnswer};
+use hickory_net::{DnsError, NetError};
+use hickory_proto::dnssec::rdata::{DNSKEY, DNSSECRData, RRSIG, SigInput};
+use hickory_proto::dnssec::{Algorithm, Proof, PublicKeyBuf, TBS, TrustAnchors, Verifier};
+use hickory_proto::op::{DnsRequest, DnsRequestOptions, DnsResponse, Message, Query};
+use hickory_proto::rr::{DNSClass, Name, RData, Record, RecordType, SerialNumber};
+
+use super::c05::{self, Case, N, RD, Rec};
 use crate::common::*;
 
-pub fn run(_o: &Opts, rec: &mut Recorder) {
-    rec.rule = "stub".into();
+// ------------------------------------------------------------------ tokens
+
+#[derive(Clone, Debug, PartialEq)]
+struct K {
+    owner: N,
+    flags: u16,
+    alg: u8,
+    pk: Vec<u8>,
+}
+
+#[derive(Clone, Debug, PartialEq)]
+struct S {
+    owner: N,
+    cls: u16,
+    ttl: u32,
+    tc: u16,
+    alg: u8,
+    labels: u8,
+    ottl: u32,
+    exp: u32,
+    inc: u32,
+    tag: u16,
+    signer: N,
+    sig: Vec<u8>,
+}
+
+impl K {
+    fn tok(&self) -> String {
+        format!("{};{};{};{}", self.owner.tok(), self.flags, self.alg, hex(&self.pk))
+    }
+    fn parse_fields(f: &[&str]) -> Option<K> {
+        let [o, fl, a, p] = f else { return None };
+        Some(K { owner: N::parse(o)?, flags: fl.parse().ok()?, alg: a.parse().ok()?, pk: unhex(p)? })
+    }
+    fn parse(t: &str) -> Option<K> {
+        Self::parse_fields(&t.split(';').collect::<Vec<_>>())
+    }
+    fn rdata(&self) -> Vec<u8> {
+        let mut o = self.flags.to_be_bytes().to_vec();
+        o.push(3);
+        o.push(self.alg);
+        o.extend_from_slice(&self.pk);
+        o
+    }
+    fn dnskey(&self) -> DNSKEY {
+        DNSKEY::with_flags(self.flags, PublicKeyBuf::new(self.pk.clone(), Algorithm::from_u8(self.alg)))
+    }
+    fn to_record(&self) -> Option<Record> {
+        Some(Record::from_rdata(self.owner.to_name()?, 3600, RData::DNSSEC(DNSSECRData::DNSKEY(self.dnskey()))))
+    }
+}
+
+/// RFC 4034 Appendix B key tag, written from the RFC
+fn ref_key_tag(rdata: &[u8]) -> u16 {
+    let mut ac: u64 = 0;
+    for (i, b) in rdata.iter().enumerate() {
+        ac += if i % 2 == 0 { (*b as u64) << 8 } else { *b as u64 };
+    }
+    ac += (ac >> 16) & 0xFFFF;
+    (ac & 0xFFFF) as u16
+}
+
+impl S {
+    fn tok(&self) -> String {
+        format!(
+            "{};{};{};{};{};{};{};{};{};{};{};{}",
+            self.owner.tok(),
+            self.cls,
+            self.ttl,
+            self.tc,
+            self.alg,
+            self.labels,
+            self.ottl,
+            self.exp,
+            self.inc,
+            self.tag,
+            self.signer.tok(),
+            hex(&self.sig)
+        )
+    }
+    fn parse(t: &str) -> Option<S> {
+        let f: Vec<&str> = t.split(';').collect();
+        let [o, c, ttl, tc, alg, lab, ottl, exp, inc, tag, signer, sg] = f.as_slice() else { return None };
+        Some(S {
+            owner: N::parse(o)?,
+            cls: c.parse().ok()?,
+            ttl: ttl.parse().ok()?,
+            tc: tc.parse().ok()?,
+            alg: alg.parse().ok()?,
+            labels: lab.parse().ok()?,
+            ottl: ottl.parse().ok()?,
+            exp: exp.parse().ok()?,
+            inc: inc.parse().ok()?,
+            tag: tag.parse().ok()?,
+            signer: N::parse(signer)?,
+            sig: unhex(sg)?,
+        })
+    }
+    fn input(&self) -> Option<SigInput> {
+        Some(SigInput {
+            type_covered: RecordType::from(self.tc),
+            algorithm: Algorithm::from_u8(self.alg),
+            num_labels: self.labels,
+            original_ttl: self.ottl,
+            sig_expiration: SerialNumber::new(self.exp),
+            sig_inception: SerialNumber::new(self.inc),
+            key_tag: self.tag,
+            signer_name: self.signer.to_name()?,
+        })
+    }
+    fn to_record(&self) -> Option<Record> {
+        let mut r = Record::from_rdata(
+            self.owner.to_name()?,
+            self.ttl,
+            RData::DNSSEC(DNSSECRData::RRSIG(RRSIG::from_sig(self.input()?, self.sig.clone()))),
+        );
+        r.dns_class = DNSClass::from(self.cls);
+        Some(r)
+    }
+    /// the C05 reference case for the RRset `recs` of `name` under these RRSIG fields
+    fn ref_case(&self, name: &N, cls: u16, recs: &[Rec]) -> Case {
+        Case {
+            name: name.clone(),
+            cls,
+            tc: self.tc,
+            alg: self.alg,
+            labels: self.labels,
+            ottl: self.ottl,
+            exp: self.exp,
+            inc: self.inc,
+            tag: self.tag,
+            signer: self.signer.clone(),
+            recs: recs.to_vec(),
+        }
+    }
+}
+
+fn proof_tok(p: Proof) -> &'static str {
+    match p {
+        Proof::Secure => "S",
+        Proof::Insecure => "I",
+        Proof::Bogus => "B",
+        Proof::Indeterminate => "N",
+    }
+}
+
+fn parse_proof(t: &str) -> Option<Proof> {
+    Some(match t {
+        "S" => Proof::Secure,
+        "I" => Proof::Insecure,
+        "B" => Proof::Bogus,
+        "N" => Proof::Indeterminate,
+        _ => return None,
+    })
+}
+
+fn same_name_ci(a: &N, b: &N) -> bool {
+    a.fqdn == b.fqdn && a.lower_labels() == b.lower_labels()
+}
+
+/// a ≤ b in RFC 1982 serial arithmetic (defined and true)
+fn serial_le(a: u32, b: u32) -> bool {
+    b.wrapping_sub(a) < 0x8000_0000
+}
+
+fn in_window(now: u32, s: &S) -> bool {
+    serial_le(s.inc, now) && serial_le(now, s.exp)
+}
+
+/// the TBS bytes for which the real crypto accepts (key, signature), as the oracle token
+fn oracle_tok(k: &K, s: &S, name: &N, recs: &[Record]) -> String {
+    let (Some(input), Some(name)) = (s.input(), name.to_name()) else { return "!".into() };
+    match TBS::from_input(&name.to_lowercase(), DNSClass::IN, &input, recs.iter()) {
+        Ok(tbs) => {
+            if k.dnskey().verify(tbs.as_ref(), &s.sig).is_ok() {
+                hex(tbs.as_ref())
+            } else {
+                "!".into()
+            }
+        }
+        Err(_) => "!".into(),
+    }
+}
+
+/// The independent acceptance predicate.  Returns the list of conditions that do **not** hold.
+fn indep_check(now: u32, kproof: Proof, k: &K, s: &S, name: &N, ty: u16, recs: &[Rec]) -> Vec<&'static str> {
+    let mut bad = vec![];
+    if kproof != Proof::Secure {
+        bad.push("key-not-secure");
+    }
+    if k.flags & 0x0100 == 0 {
+        bad.push("not-zone-key");
+    }
+    if k.flags & 0x0080 != 0 {
+        bad.push("revoked");
+    }
+    if !same_name_ci(&k.owner, &s.signer) {
+        bad.push("key-owner!=signer");
+    }
+    if k.alg != s.alg {
+        bad.push("algorithm");
+    }
+    if ref_key_tag(&k.rdata()) != s.tag {
+        bad.push("key-tag");
+    }
+    if !same_name_ci(&s.owner, name) {
+        bad.push("rrsig-owner");
+    }
+    if s.tc != ty {
+        bad.push("type-covered");
+    }
+    let c = s.ref_case(name, s.cls, recs);
+    if (s.labels as usize) > c.owner_label_count() {
+        bad.push("labels");
+    }
+    if recs.is_empty() || recs.iter().any(|r| r.cls != s.cls || r.rtype != ty || !same_name_ci(&r.name, name)) {
+        bad.push("rrset-owner-class-type");
+    }
+    if !in_window(now, s) {
+        bad.push("window");
+    }
+    match c.ref_signed_data() {
+        Some(bytes) if c.rrset().len() == recs.len() => {
+            if k.dnskey().verify(&bytes, &s.sig).is_err() {
+                bad.push("signature");
+            }
+        }
+        _ => bad.push("signature"),
+    }
+    bad
+}
+
+fn ttl_excess(now: u32, s: &S, ttl: u32) -> Option<&'static str> {
+    if ttl > s.exp.wrapping_sub(now) {
+        Some("ttl > remaining signature lifetime")
+    } else if ttl > s.ottl {
+        Some("ttl > original ttl")
+    } else {
+        None
+    }
+}
+
+// ------------------------------------------------------------------ scripted upstream, virtual clock
+
+static CLOCK: AtomicU64 = AtomicU64::new(0);
+
+#[derive(Clone, Copy)]
+pub struct MockTime;
+
+#[async_trait::async_trait]
+impl Time for MockTime {
+    async fn delay_for(duration: Duration) {
+        TokioTime::delay_for(duration).await
+    }
+    async fn timeout<F: 'static + Future + Send>(duration: Duration, future: F) -> Result<F::Output, io::Error> {
+        TokioTime::timeout(duration, future).await
+    }
+    fn current_time() -> u64 {
+        CLOCK.load(AtOrd::SeqCst)
+    }
+}
+
+#[derive(Clone)]
+pub struct MockRuntime(TokioRuntimeProvider);
+
+impl RuntimeProvider for MockRuntime {
+    type Handle = <TokioRuntimeProvider as RuntimeProvider>::Handle;
+    type Timer = MockTime;
+    type Udp = <TokioRuntimeProvider as RuntimeProvider>::Udp;
+    type Tcp = <TokioRuntimeProvider as RuntimeProvider>::Tcp;
+
+    fn create_handle(&self) -> Self::Handle {
+        self.0.create_handle()
+    }
+    fn connect_tcp(
+        &self,
+        server_addr: SocketAddr,
+        bind_addr: Option<SocketAddr>,
+        timeout: Option<Duration>,
+    ) -> Pin<Box<dyn Send + Future<Output = Result<Self::Tcp, io::Error>>>> {
+        self.0.connect_tcp(server_addr, bind_addr, timeout)
+    }
+    fn bind_udp(&self, local_addr: SocketAddr, server_addr: SocketAddr) -> Pin<Box<dyn Send + Future<Output = Result<Self::Udp, io::Error>>>> {
+        self.0.bind_udp(local_addr, server_addr)
+    }
+}
+
+#[derive(Default)]
+struct Script {
+    /// (lower-cased query name token, type) → answer records
+    answers: HashMap<(String, u16), Vec<Record>>,
+}
+
+#[derive(Clone)]
+struct Upstream {
+    script: Arc<Mutex<Script>>,
+    dnskey_queries: Arc<AtomicUsize>,
+    other_queries: Arc<AtomicUsize>,
+}
+
+impl DnsHandle for Upstream {
+    type Response = Pin<Box<dyn Stream<Item = Result<DnsResponse, NetError>> + Send>>;
+    type Runtime = MockRuntime;
+
+    fn send(&self, request: DnsRequest) -> Self::Response {
+        let q = request.queries.first().cloned();
+        let mut msg = Message::query();
+        msg.metadata.id = request.id;
+        let mut answers = vec![];
+        if let Some(q) = &q {
+            msg.add_query(q.clone());
+            if q.query_type == RecordType::DNSKEY {
+                self.dnskey_queries.fetch_add(1, AtOrd::SeqCst);
+            } else {
+                self.other_queries.fetch_add(1, AtOrd::SeqCst);
+            }
+            let key = (name_tok(&q.name.to_lowercase()), u16::from(q.query_type));
+            if let Some(a) = self.script.lock().unwrap().answers.get(&key) {
+                answers = a.clone();
+            }
+        }
+        let mut msg = msg.into_response();
+        for a in answers {
+            msg.add_answer(a);
+        }
+        let r = DnsResponse::from_message(msg).map_err(NetError::from);
+        Box::pin(stream::once(async move { r }))
+    }
+}
+
+/// records every byte fed to a `Hasher`: the hash input of `RrsetVerificationContext::key()`
+#[derive(Default)]
+struct Recording(Vec<u8>);
+
+impl Hasher for Recording {
+    fn finish(&self) -> u64 {
+        0
+    }
+    fn write(&mut self, bytes: &[u8]) {
+        self.0.extend_from_slice(bytes);
+    }
+}
+
+/// what `RrsetVerificationContext::key()` hashes, in its order
+fn cache_key_stream(query: &Query, key_name: &Name, ty: RecordType, recs: &[Record], sigs: &[Record]) -> Vec<u8> {
+    let mut h = Recording::default();
+    query.name.hash(&mut h);
+    query.query_class.hash(&mut h);
+    query.query_type.hash(&mut h);
+    hickory_proto::rr::LowerName::new(key_name).hash(&mut h);
+    ty.hash(&mut h);
+    for r in recs.iter().chain(sigs) {
+        r.name.hash(&mut h);
+        r.dns_class.hash(&mut h);
+        // mirrors hash_rdata(): the uncompressed wire RDATA, letter case preserved
+        let mut bytes = Vec::new();
+        let ok = {
+            let mut enc = hickory_proto::serialize::binary::BinEncoder::new(&mut bytes);
+            enc.name_encoding = hickory_proto::serialize::binary::NameEncoding::Uncompressed;
+            hickory_proto::serialize::binary::BinEncodable::emit(&r.data, &mut enc).is_ok()
+        };
+        if ok {
+            bytes.hash(&mut h)
+        } else {
+            r.data.hash(&mut h)
+        }
+    }
+    h.0
+}
+
+struct FreshInfo {
+    canon: Vec<Option<Vec<u8>>>,
+    indep_ok: bool,
+    sig: S,
+    ref_bytes: Option<Vec<u8>>,
+    raw_lower: Vec<Vec<u8>>,
+}
+
+struct Hist {
+    rt: tokio::runtime::Runtime,
+    handle: DnssecDnsHandle<Upstream>,
+    up: Upstream,
+    memory: HashMap<String, FreshInfo>,
+    last_inst: u64,
+}
+
+thread_local! {
+    static HIST: std::cell::RefCell<Option<Hist>> = const { std::cell::RefCell::new(None) };
+}
+
+/// the five real keys plus, for each, two bogus "keys" with the same key tag and algorithm
+/// (two 16-bit words of the public key swapped) — all of them trust anchors in the history part
+fn all_keys() -> Vec<K> {
+    let mut v = vec![];
+    for k in c05::sign_keys() {
+        let pk = k.dnskey.public_key().clone().into_inner();
+        let base = K { owner: c05::nm("example.com."), flags: 257, alg: u8::from(k.alg), pk: pk.clone() };
+        v.push(base.clone());
+        for off in [0usize, 4] {
+            let mut p = pk.clone();
+            if p.len() >= off + 4 && (p[off], p[off + 1]) != (p[off + 2], p[off + 3]) {
+                p.swap(off, off + 2);
+                p.swap(off + 1, off + 3);
+                v.push(K { pk: p, ..base.clone() });
+            }
+        }
+    }
+    v
+}
+
+fn real_key(i: usize) -> K {
+    let k = &c05::sign_keys()[i];
+    K { owner: c05::nm("example.com."), flags: 257, alg: u8::from(k.alg), pk: k.dnskey.public_key().clone().into_inner() }
+}
+
+fn sign_with(i: usize, bytes: &[u8]) -> Vec<u8> {
+    c05::sign_keys()[i].key.sign(&TBS::from(bytes)).expect("sign")
+}
+
+// ------------------------------------------------------------------ exec
+
+struct Out {
+    line: String,
+    out: String,
+    fails: Vec<(String, String)>,
+    stats: Vec<String>,
+    nontrivial: bool,
+}
+
+pub fn exec(line: &str, rec: &mut Recorder) {
+    let t: Vec<&str> = line.split_whitespace().collect();
+    if t.is_empty() {
+        return;
+    }
+    match catch(|| exec_inner(&t)) {
+        Ok(Some(o)) => {
+            if o.out == "~" {
+                rec.impl_only += 1;
+            }
+            let idx = rec.case(o.line, o.out);
+            rec.stat(&format!("op.{}", t[0]));
+            for s in o.stats {
+                rec.stat(&s);
+            }
+            if o.nontrivial {
+                rec.nontrivial(idx);
+            }
+            for (what, class) in o.fails {
+                rec.fail(idx, what, &class);
+            }
+        }
+        Ok(None) => rec.stat("skipped.unparsable-case"),
+        Err(p) => {
+            let idx = rec.case(line.to_string(), format!("panic {p}"));
+            rec.fail(idx, format!("panic: {p}"), "");
+        }
+    }
+}
+
+fn simple(line: String, out: String) -> Option<Out> {
+    Some(Out { line, out, fails: vec![], stats: vec![], nontrivial: true })
+}
+
+fn exec_inner(t: &[&str]) -> Option<Out> {
+    match t {
+        ["serial", a, b] => {
+            let (x, y): (u32, u32) = (a.parse().ok()?, b.parse().ok()?);
+            let got = SerialNumber::new(x).partial_cmp(&SerialNumber::new(y));
+            let out = match got {
+                Some(std::cmp::Ordering::Less) => "lt",
+                Some(std::cmp::Ordering::Equal) => "eq",
+                Some(std::cmp::Ordering::Greater) => "gt",
+                None => "none",
+            };
+            // RFC 1982 §3.2 by modular distance
+            let d = y.wrapping_sub(x);
+            let want = if d == 0 { "eq" } else if d < 0x8000_0000 { "lt" } else if d > 0x8000_0000 { "gt" } else { "none" };
+            let mut o = simple(format!("serial {x} {y}"), out.into())?;
+            if out != want {
+                o.fails.push((format!("SerialNumber comparison {out} differs from RFC 1982 ({want})"), String::new()));
+            }
+            Some(o)
+        }
+        ["tag", h] => {
+            let b = unhex(h)?;
+            let got = DNSKEY::calculate_key_tag_internal(&b);
+            let mut o = simple(format!("tag {}", hex(&b)), got.to_string())?;
+            if got != ref_key_tag(&b) {
+                o.fails.push(("key tag differs from RFC 4034 Appendix B".into(), String::new()));
+            }
+            Some(o)
+        }
+        ["attl", exp, ottl, rttl, now] => {
+            let (exp, ottl, rttl, now): (u32, u32, u32, u32) = (exp.parse().ok()?, ottl.parse().ok()?, rttl.parse().ok()?, now.parse().ok()?);
+            let s = S { owner: c05::nm("a."), cls: 1, ttl: 0, tc: 1, alg: 13, labels: 1, ottl, exp, inc: 0, tag: 0, signer: c05::nm("a."), sig: vec![] };
+            let rrsig = RRSIG::from_sig(s.input()?, vec![]);
+            let r = Record::from_rdata(Name::root(), rttl, RData::A(hickory_proto::rr::rdata::A::new(1, 2, 3, 4)));
+            let got = rrsig.authenticated_ttl(&r, now);
+            simple(format!("attl {exp} {ottl} {rttl} {now}"), got.to_string())
+        }
+        ["vk", now, kp, key, sg, name, ty, _orc, recs @ ..] => {
+            let now: u32 = now.parse().ok()?;
+            let kproof = parse_proof(kp)?;
+            let k = K::parse(key)?;
+            let s = S::parse(sg)?;
+            let name_n = N::parse(name)?;
+            let ty: u16 = ty.parse().ok()?;
+            let recs_n: Vec<Rec> = recs.iter().map(|r| Rec::parse(r)).collect::<Option<Vec<_>>>()?;
+            let mut records: Vec<Record> = recs_n.iter().map(|r| r.to_record()).collect::<Option<Vec<_>>>()?;
+            let name_h = name_n.to_name()?;
+            let krec = k.to_record()?;
+            let srec = s.to_record()?;
+            let orc = oracle_tok(&k, &s, &name_n, &records);
+            let line = format!(
+                "vk {now} {kp} {} {} {} {ty} {orc}{}",
+                k.tok(),
+                s.tok(),
+                name_n.tok(),
+                recs_n.iter().map(|r| format!(" {}", r.tok().unwrap_or_default())).collect::<String>()
+            );
+            let kref = krec.try_borrow::<DNSKEY>()?;
+            let sref = srec.try_borrow::<RRSIG>()?;
+            let got = verify_rrset_with_dnskey(kref, kproof, &sref, &name_h, RecordType::from(ty), &mut records, now);
+            let out = match &got {
+                Ok((p, ttl)) => format!("ok {} {}", proof_tok(*p), ttl.map(|t| t.to_string()).unwrap_or("none".into())),
+                Err(p) => format!("err {}", proof_tok(*p)),
+            };
+            let bad = indep_check(now, kproof, &k, &s, &name_n, ty, &recs_n);
+            let mut fails = vec![];
+            let mut stats = vec![];
+            let secure = matches!(got, Ok((Proof::Secure, _)));
+            if secure {
+                if !bad.is_empty() {
+                    fails.push((format!("Secure although: {}", bad.join(", ")), String::new()));
+                }
+                match got {
+                    Ok((_, Some(ttl))) => {
+                        if let Some(w) = ttl_excess(now, &s, ttl) {
+                            fails.push((format!("Secure with {w} (ttl {ttl})"), String::new()));
+                        }
+                        if recs_n.first().map(|r| ttl > r.ttl).unwrap_or(false) {
+                            fails.push(("Secure with a TTL above the received record TTL".into(), String::new()));
+                        }
+                    }
+                    _ => fails.push(("Secure without an authenticated TTL".into(), String::new())),
+                }
+            }
+            stats.push(format!("vk.verdict.{}", if secure { "secure" } else { "rejected" }));
+            stats.push(format!(
+                "vk.oracle.{}",
+                match bad.len() {
+                    0 => "all-conditions-hold".to_string(),
+                    1 => format!("only-{}-fails", bad[0]),
+                    _ => "several-fail".to_string(),
+                }
+            ));
+            if bad.is_empty() && !secure {
+                stats.push("vk.valid-but-rejected (allowed: 'only if')".into());
+            }
+            Some(Out { line, out, fails, stats, nontrivial: secure || bad.len() == 1 })
+        }
+        ["begin", cfg @ ..] => {
+            let mut up = Upstream { script: Arc::new(Mutex::new(Script::default())), dnskey_queries: Arc::new(AtomicUsize::new(0)), other_queries: Arc::new(AtomicUsize::new(0)) };
+            up.dnskey_queries = Arc::new(AtomicUsize::new(0));
+            // trust anchors of the block: `ta=ALG:PUBKEYHEX,…` (every key the block serves)
+            let mut ta = TrustAnchors::empty();
+            for c in cfg {
+                if let Some(list) = c.strip_prefix("ta=") {
+                    for e in list.split(',') {
+                        let (alg, pk) = e.split_once(':')?;
+                        ta.insert(&PublicKeyBuf::new(unhex(pk)?, Algorithm::from_u8(alg.parse().ok()?)));
+                    }
+                }
+            }
+            let mut handle = DnssecDnsHandle::with_trust_anchor(up.clone(), Arc::new(ta));
+            for c in cfg {
+                if c.starts_with("ta=") {
+                    continue;
+                }
+                let (k, v) = c.split_once('=')?;
+                let (lo, hi) = v.split_once(':')?;
+                let range = Duration::from_secs(lo.parse().ok()?)..=Duration::from_secs(hi.parse().ok()?);
+                handle = match k {
+                    "pos" => handle.positive_validation_ttl(range),
+                    "neg" => handle.negative_validation_ttl(range),
+                    _ => return None,
+                };
+            }
+            let rt = tokio::runtime::Builder::new_current_thread().enable_all().build().ok()?;
+            HIST.with(|h| *h.borrow_mut() = Some(Hist { rt, handle, up, memory: HashMap::new(), last_inst: 0 }));
+            let mut line = "begin".to_string();
+            for c in cfg {
+                line.push(' ');
+                line.push_str(c);
+            }
+            Some(Out { line, out: "begin".into(), fails: vec![], stats: vec![], nontrivial: false })
+        }
+        ["end"] => {
+            HIST.with(|h| *h.borrow_mut() = None);
+            Some(Out { line: "end".into(), out: "end".into(), fails: vec![], stats: vec![], nontrivial: false })
+        }
+        ["h", now, inst, _ck, keys, sg, name, ty, _orcs, recs @ ..] => {
+            let now: u32 = now.parse().ok()?;
+            let inst: u64 = inst.parse().ok()?;
+            let ks: Vec<K> = if *keys == "-" {
+                vec![]
+            } else {
+                keys.split('|')
+                    .map(|k| {
+                        let f: Vec<&str> = k.split(';').collect();
+                        K::parse_fields(&f[..f.len().min(4)])
+                    })
+                    .collect::<Option<Vec<_>>>()?
+            };
+            let s = S::parse(sg)?;
+            let name_n = N::parse(name)?;
+            let ty: u16 = ty.parse().ok()?;
+            let recs_n: Vec<Rec> = recs.iter().map(|r| Rec::parse(r)).collect::<Option<Vec<_>>>()?;
+            let records: Vec<Record> = recs_n.iter().map(|r| r.to_record()).collect::<Option<Vec<_>>>()?;
+            let srec = s.to_record()?;
+            let name_h = name_n.to_name()?;
+            let query = Query::new(name_h.clone(), RecordType::from(ty));
+            let ck = hex(&cache_key_stream(&query, &name_h, RecordType::from(ty), &records, std::slice::from_ref(&srec)));
+            let orcs = if ks.is_empty() { "-".to_string() } else { ks.iter().map(|k| oracle_tok(k, &s, &name_n, &records)).collect::<Vec<_>>().join("|") };
+            let keys_tok = if ks.is_empty() { "-".to_string() } else { ks.iter().map(|k| format!("{};S", k.tok())).collect::<Vec<_>>().join("|") };
+            let line = format!(
+                "h {now} {inst} {ck} {keys_tok} {} {} {ty} {orcs}{}",
+                s.tok(),
+                name_n.tok(),
+                recs_n.iter().map(|r| format!(" {}", r.tok().unwrap_or_default())).collect::<String>()
+            );
+            HIST.with(|hcell| {
+                let mut hb = hcell.borrow_mut();
+                let h = hb.as_mut()?;
+                if inst > h.last_inst {
+                    // the cache runs on `Instant::now()`: let real time pass
+                    std::thread::sleep(Duration::from_millis((inst - h.last_inst) * 1000 + 150));
+                    h.last_inst = inst;
+                }
+                CLOCK.store(now as u64, AtOrd::SeqCst);
+                {
+                    let mut sc = h.up.script.lock().unwrap();
+                    sc.answers.clear();
+                    let mut ans = records.clone();
+                    ans.push(srec.clone());
+                    sc.answers.insert((name_tok(&name_h.to_lowercase()), ty), ans);
+                    let signer = s.signer.to_name()?;
+                    sc.answers.insert((name_tok(&signer.to_lowercase()), 48), ks.iter().map(|k| k.to_record()).collect::<Option<Vec<_>>>()?);
+                }
+                h.up.dnskey_queries.store(0, AtOrd::SeqCst);
+                let req = DnsRequest::from_query(query.clone(), DnsRequestOptions::default());
+                let handle = h.handle.clone();
+                let res = h.rt.block_on(async move { handle.send(req).first_answer().await });
+                let fresh = h.up.dnskey_queries.load(AtOrd::SeqCst) > 0;
+                let msg: Message = match res {
+                    Ok(r) => r.into_message(),
+                    Err(NetError::Dns(DnsError::Nsec { response, .. })) => response.into_message(),
+                    Err(e) => {
+                        return Some(Out { line: line.clone(), out: format!("err {}", e.to_string().chars().take(40).collect::<String>().replace(' ', "_")), fails: vec![("send failed".into(), String::new())], stats: vec![], nontrivial: false });
+                    }
+                };
+                let mut proofs = vec![];
+                let mut ttls = vec![];
+                let mut sig_out = String::new();
+                for a in &msg.answers {
+                    if a.record_type() == RecordType::RRSIG {
+                        sig_out = format!("{} {}", proof_tok(a.proof), a.ttl);
+                    } else {
+                        proofs.push(a.proof);
+                        ttls.push(a.ttl);
+                    }
+                }
+                let p0 = proofs.first().copied().unwrap_or(Proof::Indeterminate);
+                // class flag `validation-cache-outlives-signature`, computed here and by the Lean predicate
+                let dev = !fresh
+                    && p0 == Proof::Secure
+                    && (!in_window(now, &s) || ttls.first().map(|t| *t > s.exp.wrapping_sub(now)).unwrap_or(false));
+                // class flag `validation-cache-key-folds-rdata-case`: served from an entry whose fresh
+                // validation had the same RRSIG but other canonical RDATA
+                let canon_now: Vec<Option<Vec<u8>>> = recs_n.iter().map(|r| r.rd.ref_canon()).collect();
+                let dev2 = !fresh && p0 == Proof::Secure && h.memory.get(&ck).map(|fi| fi.sig == s && fi.canon != canon_now).unwrap_or(false);
+                let out = format!(
+                    "{} {} {} sig {sig_out} dev={}{}",
+                    if fresh { "fresh" } else { "cached" },
+                    proof_tok(p0),
+                    ttls.iter().map(|t| t.to_string()).collect::<Vec<_>>().join(" "),
+                    b(dev),
+                    b(dev2)
+                );
+                let mut fails = vec![];
+                let mut stats = vec![format!("h.{}.{}", if fresh { "fresh" } else { "cached" }, proof_tok(p0))];
+                if proofs.iter().any(|p| *p != p0) {
+                    fails.push(("records of one RRset left with different proofs".into(), String::new()));
+                }
+                // independent oracle
+                let bad_now: Vec<&str> = {
+                    // any served key may be the right one
+                    let mut best: Option<Vec<&str>> = None;
+                    for k in &ks {
+                        let b = indep_check(now, Proof::Secure, k, &s, &name_n, ty, &recs_n);
+                        if best.as_ref().map(|x| b.len() < x.len()).unwrap_or(true) {
+                            best = Some(b);
+                        }
+                    }
+                    best.unwrap_or(vec!["no-key"])
+                };
+                let refc = s.ref_case(&name_n, s.cls, &recs_n);
+                let raw_lower: Vec<Vec<u8>> = recs_n.iter().map(|r| r.rd.ref_canon().unwrap_or_default().to_ascii_lowercase()).collect();
+                if fresh {
+                    h.memory.insert(ck.clone(), FreshInfo { canon: recs_n.iter().map(|r| r.rd.ref_canon()).collect(), indep_ok: bad_now.is_empty(), sig: s.clone(), ref_bytes: refc.ref_signed_data(), raw_lower: raw_lower.clone() });
+                }
+                if p0 == Proof::Secure {
+                    if fresh {
+                        if !bad_now.is_empty() {
+                            fails.push((format!("fresh validation Secure although: {}", bad_now.join(", ")), String::new()));
+                        }
+                        for t in &ttls {
+                            if let Some(w) = ttl_excess(now, &s, *t) {
+                                fails.push((format!("fresh validation Secure with {w}"), String::new()));
+                            }
+                        }
+                    } else {
+                        match h.memory.get(&ck) {
+                            None => fails.push(("cached Secure verdict without a fresh validation of that key in this history".into(), String::new())),
+                            Some(fi) => {
+                                let same_signed = fi.sig.sig == s.sig && fi.ref_bytes.is_some() && fi.ref_bytes == refc.ref_signed_data();
+                                if !fi.indep_ok {
+                                    fails.push(("cached Secure verdict whose fresh validation should not have been Secure".into(), String::new()));
+                                } else if !same_signed {
+                                    let case_only = fi.sig == s && fi.raw_lower == raw_lower;
+                                    stats.push(format!("h.deviation.{}", if case_only { "validation-cache-key-folds-rdata-case" } else { "other-content" }));
+                                    fails.push((
+                                        format!(
+                                            "Secure from the validation cache for an RRset whose signed RDATA differs from the validated one{}",
+                                            if case_only { " in letter case only (regression of /repo a831deb: the cache key must hash the exact RDATA)" } else { "" }
+                                        ),
+                                        String::new(),
+                                    ));
+                                } else {
+                                    let mut why = vec![];
+                                    if !in_window(now, &s) {
+                                        why.push("validator clock outside [inception, expiration]".to_string());
+                                    }
+                                    for t in &ttls {
+                                        if let Some(w) = ttl_excess(now, &s, *t) {
+                                            why.push(format!("{w} (ttl {t}, remaining {})", s.exp.wrapping_sub(now)));
+                                            break;
+                                        }
+                                    }
+                                    if !why.is_empty() {
+                                        stats.push("h.deviation.validation-cache-outlives-signature".into());
+                                        fails.push((format!("Secure from the validation cache: {} (regression of /repo 411522f: the cache must not outlive the signature)", why.join("; ")), String::new()));
+                                    }
+                                }
+                            }
+                        }
+                    }
+                }
+                Some(Out { line: line.clone(), out, fails, stats, nontrivial: p0 == Proof::Secure || !fresh })
+            })
+        }
+        _ => None,
+    }
+}
+
+// ------------------------------------------------------------------ generator
+
+struct Base {
+    ki: usize,
+    k: K,
+    s: S,
+    name: N,
+    ty: u16,
+    recs: Vec<Rec>,
+    now: u32,
+}
+
+fn gen_base(r: &mut Rng) -> Base {
+    let ki = r.below(c05::sign_keys().len() as u64) as usize;
+    let mut zone = c05::lower_n(&c05::gen_n(r));
+    zone.fqdn = true;
+    if zone.labels.is_empty() {
+        zone.labels.push(b"example".to_vec());
+    }
+    let mut name = zone.clone();
+    if r.chance(2, 3) {
+        name.labels.insert(0, r.pick(&[&b"www"[..], b"Mail", b"a", b"_sip"]).to_vec());
+    }
+    let ty = *r.pick(&[1u16, 1, 2, 15, 16, 28, 33, 5, 6, 43, 52, 47, 48]);
+    let pool = c05::name_pool(r);
+    let n = if ty == 5 || ty == 6 { 1 } else { r.range(1, 3) as usize };
+    let ttl = *r.pick(&[0u32, 30, 300, 3600, 86400]);
+    let mut recs: Vec<Rec> = vec![];
+    let mut tries = 0;
+    while recs.len() < n && tries < 20 {
+        tries += 1;
+        let rd = c05::gen_rd(r, ty, &pool, true);
+        if matches!(rd, RD::Txt(ref ss) if ss.iter().any(|s| s.len() > 255)) || recs.iter().any(|x| x.rd.ref_canon() == rd.ref_canon()) {
+            continue;
+        }
+        recs.push(Rec { name: name.clone(), rtype: ty, cls: 1, ttl, rd });
+    }
+    let inc = *r.pick(&[1_700_000_000u32, 0xFFFF_FF00, 0x7FFF_FF00, 0, 5, 0xFFFF_FFFF, 0x8000_0000]);
+    let dur = *r.pick(&[0u32, 1, 10, 3600, 86400 * 30, 0x7FFF_FFFF, 0x7FFF_FFFE]);
+    let exp = inc.wrapping_add(dur);
+    let now = inc.wrapping_add(if dur == 0 { 0 } else { r.below(dur as u64 + 1) as u32 });
+    let mut k = real_key(ki);
+    k.owner = c05::flip_case(r, &zone, 20);
+    let mut s = S {
+        owner: c05::flip_case(r, &name, 20),
+        cls: 1,
+        ttl,
+        tc: ty,
+        alg: k.alg,
+        labels: name.labels.len() as u8,
+        ottl: *r.pick(&[ttl, ttl, ttl.saturating_mul(2), 60, 0]),
+        exp,
+        inc,
+        tag: ref_key_tag(&k.rdata()),
+        signer: c05::flip_case(r, &zone, 20),
+        sig: vec![],
+    };
+    // a generated first label may be `*`: the Labels field does not count it
+    s.labels = s.ref_case(&name, 1, &recs).owner_label_count() as u8;
+    let bytes = s.ref_case(&name, 1, &recs).ref_signed_data().expect("reference bytes");
+    s.sig = sign_with(ki, &bytes);
+    Base { ki, k, s, name, ty, recs, now }
+}
+
+fn flip_bit(v: &mut [u8], r: &mut Rng) {
+    if !v.is_empty() {
+        let i = r.below(v.len() as u64) as usize;
+        v[i] ^= 1 << r.below(8);
+    }
+}
+
+fn mutate_name(n: &mut N, r: &mut Rng) -> &'static str {
+    if n.labels.is_empty() {
+        n.labels.push(b"x".to_vec());
+        return "name.add-label";
+    }
+    match r.below(5) {
+        0 => {
+            let i = r.below(n.labels.len() as u64) as usize;
+            flip_bit(&mut n.labels[i], r);
+            "name.bit"
+        }
+        1 => {
+            *n = c05::flip_case(r, n, 60);
+            "name.case"
+        }
+        2 => {
+            n.labels.remove(0);
+            "name.drop-label"
+        }
+        3 => {
+            n.labels.insert(0, b"x".to_vec());
+            "name.add-label"
+        }
+        _ => {
+            n.fqdn = !n.fqdn;
+            "name.fqdn"
+        }
+    }
+}
+
+fn mutate_rd(rd: &mut RD, r: &mut Rng) -> &'static str {
+    match rd {
+        RD::A(o) | RD::Aaaa(o) => {
+            flip_bit(o, r);
+            "rdata.bit"
+        }
+        RD::Op(o) => {
+            if o.is_empty() {
+                o.push(1);
+            } else {
+                flip_bit(o, r);
+            }
+            "rdata.bit"
+        }
+        RD::Ns(n) | RD::Cname(n) | RD::Ptr(n) => mutate_name(n, r),
+        RD::Mx(p, n) => {
+            if r.chance(1, 2) {
+                *p ^= 1 << r.below(16);
+                "rdata.bit"
+            } else {
+                mutate_name(n, r)
+            }
+        }
+        RD::Srv(a, b2, c, n) => match r.below(4) {
+            0 => {
+                *a ^= 1 << r.below(16);
+                "rdata.bit"
+            }
+            1 => {
+                *b2 ^= 1 << r.below(16);
+                "rdata.bit"
+            }
+            2 => {
+                *c ^= 1 << r.below(16);
+                "rdata.bit"
+            }
+            _ => mutate_name(n, r),
+        },
+        RD::Soa(m, rn, a, ..) => match r.below(3) {
+            0 => mutate_name(m, r),
+            1 => mutate_name(rn, r),
+            _ => {
+                *a ^= 1 << r.below(32);
+                "rdata.bit"
+            }
+        },
+        RD::Txt(ss) => {
+            if ss.is_empty() || ss.iter().all(|s| s.is_empty()) {
+                ss.push(b"x".to_vec());
+                "rdata.add-string"
+            } else {
+                let i = (0..ss.len()).find(|i| !ss[*i].is_empty()).unwrap();
+                flip_bit(&mut ss[i], r);
+                "rdata.bit"
+            }
+        }
+    }
+}
+
+/// applies one mutation; returns its label
+fn mutate(b: &mut Base, kproof: &mut Proof, r: &mut Rng) -> String {
+    let m = r.below(40);
+    let lab: String = match m {
+        0..=3 => "none".into(),
+        4..=9 => {
+            // clock: window edges ±1, ±2³¹, wrap
+            let (inc, exp) = (b.s.inc, b.s.exp);
+            let (l, v) = *r.pick(&[
+                ("inc-1", inc.wrapping_sub(1)),
+                ("inc", inc),
+                ("inc+1", inc.wrapping_add(1)),
+                ("exp-1", exp.wrapping_sub(1)),
+                ("exp", exp),
+                ("exp+1", exp.wrapping_add(1)),
+                ("exp+2^31", exp.wrapping_add(0x8000_0000)),
+                ("exp+2^31+1", exp.wrapping_add(0x8000_0001)),
+                ("exp+2^31-1", exp.wrapping_add(0x7FFF_FFFF)),
+                ("inc+2^31", inc.wrapping_add(0x8000_0000)),
+                ("inc-2^31+1", inc.wrapping_sub(0x7FFF_FFFF)),
+                ("0", 0),
+                ("u32::MAX", u32::MAX),
+            ]);
+            b.now = v;
+            format!("clock.{l}")
+        }
+        10 => {
+            b.now = r.next() as u32;
+            "clock.random".into()
+        }
+        11..=14 => {
+            let i = r.below(b.recs.len() as u64) as usize;
+            mutate_rd(&mut b.recs[i].rd, r).into()
+        }
+        15 => {
+            let i = r.below(b.recs.len() as u64) as usize;
+            let l = mutate_name(&mut b.recs[i].name, r);
+            format!("record-owner.{l}")
+        }
+        16 => {
+            let l = mutate_name(&mut b.name, r);
+            format!("rrset-name.{l}")
+        }
+        17 => {
+            let i = r.below(b.recs.len() as u64) as usize;
+            b.recs[i].ttl ^= 1 << r.below(32);
+            "record.ttl (unsigned)".into()
+        }
+        18 => {
+            let i = r.below(b.recs.len() as u64) as usize;
+            b.recs[i].cls = *r.pick(&[3u16, 255, 0]);
+            "record.class".into()
+        }
+        19 => {
+            if b.recs.len() > 1 {
+                b.recs.pop();
+                "rrset.remove-record".into()
+            } else {
+                let mut x = b.recs[0].clone();
+                mutate_rd(&mut x.rd, r);
+                b.recs.push(x);
+                "rrset.add-record".into()
+            }
+        }
+        20 => {
+            let mut x = b.recs[0].clone();
+            mutate_rd(&mut x.rd, r);
+            b.recs.push(x);
+            "rrset.add-record".into()
+        }
+        21 => {
+            b.recs.reverse();
+            "rrset.reorder (unsigned)".into()
+        }
+        22 => {
+            b.ty = if b.ty == 1 { 28 } else { 1 };
+            "rrset-type".into()
+        }
+        23 => {
+            b.s.tc ^= 1 << r.below(16);
+            "rrsig.type-covered".into()
+        }
+        24 => {
+            b.s.alg = *r.pick(&[8u8, 10, 13, 14, 15, 5, 0]);
+            "rrsig.algorithm".into()
+        }
+        25 => {
+            b.s.labels = match r.below(3) {
+                0 => b.s.labels.wrapping_sub(1),
+                1 => b.s.labels.wrapping_add(1),
+                _ => r.byte(),
+            };
+            "rrsig.labels".into()
+        }
+        26 => {
+            b.s.ottl ^= 1 << r.below(32);
+            "rrsig.original-ttl".into()
+        }
+        27 => {
+            b.s.exp ^= 1 << r.below(32);
+            "rrsig.expiration".into()
+        }
+        28 => {
+            b.s.inc ^= 1 << r.below(32);
+            "rrsig.inception".into()
+        }
+        29 => {
+            b.s.tag ^= 1 << r.below(16);
+            "rrsig.key-tag".into()
+        }
+        30 => {
+            let l = mutate_name(&mut b.s.signer, r);
+            format!("rrsig.signer.{l}")
+        }
+        31 | 32 => {
+            flip_bit(&mut b.s.sig, r);
+            "rrsig.signature-bit".into()
+        }
+        33 => {
+            let l = mutate_name(&mut b.s.owner, r);
+            format!("rrsig.owner.{l}")
+        }
+        34 => {
+            match r.below(2) {
+                0 => b.s.cls = *r.pick(&[3u16, 255]),
+                _ => b.s.ttl ^= 1 << r.below(32),
+            }
+            "rrsig.class/ttl".into()
+        }
+        35 => {
+            b.k.flags ^= 1 << r.below(16);
+            "dnskey.flags-bit".into()
+        }
+        36 => {
+            match r.below(2) {
+                0 => b.k.alg = *r.pick(&[8u8, 10, 13, 14, 15]),
+                _ => flip_bit(&mut b.k.pk, r),
+            }
+            "dnskey.algorithm/public-key-bit".into()
+        }
+        37 => {
+            let l = mutate_name(&mut b.k.owner, r);
+            format!("dnskey.owner.{l}")
+        }
+        38 => {
+            // a different key (optionally with the RRSIG naming it)
+            let other = (b.ki + 1 + r.below(4) as usize) % c05::sign_keys().len();
+            let owner = b.k.owner.clone();
+            b.k = real_key(other);
+            b.k.owner = owner;
+            if r.chance(1, 2) {
+                b.s.alg = b.k.alg;
+                b.s.tag = ref_key_tag(&b.k.rdata());
+            }
+            "different-key".into()
+        }
+        _ => {
+            *kproof = *r.pick(&[Proof::Insecure, Proof::Bogus, Proof::Indeterminate]);
+            "dnskey-proof".into()
+        }
+    };
+    lab
+}
+
+fn vk_line(b: &Base, kproof: Proof) -> Option<String> {
+    let mut s = format!("vk {} {} {} {} {} {} !", b.now, proof_tok(kproof), b.k.tok(), b.s.tok(), b.name.tok(), b.ty);
+    for r in &b.recs {
+        s.push(' ');
+        s.push_str(&r.tok()?);
+    }
+    Some(s)
+}
+
+fn h_line(now: u32, inst: u64, keys: &[K], s: &S, name: &N, ty: u16, recs: &[Rec]) -> Option<String> {
+    let keys_tok = if keys.is_empty() { "-".to_string() } else { keys.iter().map(|k| format!("{};S", k.tok())).collect::<Vec<_>>().join("|") };
+    let mut l = format!("h {now} {inst} - {keys_tok} {} {} {ty} -", s.tok(), name.tok());
+    for r in recs {
+        l.push(' ');
+        l.push_str(&r.tok()?);
+    }
+    Some(l)
+}
+
+/// one history: validate; advance the clock / change what upstream serves; validate again
+fn gen_history(r: &mut Rng, kind: u64) -> Option<Vec<String>> {
+    let mut b = gen_base(r);
+    while b.ty == 48 {
+        // a DNSKEY RRset takes the verify_dnskey_rrset path (C07), which this model does not cover
+        b = gen_base(r);
+    }
+    // histories use plain (non-wrapping) windows and TTLs that are 0 or long: the cache runs on real time
+    b.s.inc = *r.pick(&[1_700_000_000u32, 0xFFFF_FF00, 100]);
+    let life = *r.pick(&[10u32, 60, 600]);
+    b.s.exp = b.s.inc.wrapping_add(life);
+    let ttl = *r.pick(&[3600u32, 300, 86400, 0]);
+    for x in b.recs.iter_mut() {
+        x.ttl = ttl;
+    }
+    b.s.ttl = ttl;
+    b.s.ottl = *r.pick(&[ttl, 7200]);
+    b.k.owner = b.s.signer.clone();
+    let resign = |b: &mut Base| {
+        let bytes = b.s.ref_case(&b.name, 1, &b.recs).ref_signed_data().expect("ref");
+        b.s.sig = sign_with(b.ki, &bytes);
+    };
+    let t0 = b.s.inc.wrapping_add(1);
+    let mut cfg = String::new();
+    let mut lines = vec![];
+    let keys = vec![b.k.clone()];
+    match kind {
+        0 | 1 => {
+            // clock advances past the expiration
+            resign(&mut b);
+            lines.push(h_line(t0, 0, &keys, &b.s, &b.name, b.ty, &b.recs)?);
+            for dt in [life / 2, life - 1, life, life + 1, life + 3600, 0x8000_0000] {
+                if r.chance(2, 3) {
+                    lines.push(h_line(t0.wrapping_add(dt), 0, &keys, &b.s, &b.name, b.ty, &b.recs)?);
+                }
+            }
+        }
+        2 => {
+            // configured positive range stretches / shrinks the lifetime
+            cfg = r.pick(&[" pos=60:120", " pos=0:0", " pos=0:5", " neg=60:120"]).to_string();
+            resign(&mut b);
+            lines.push(h_line(t0, 0, &keys, &b.s, &b.name, b.ty, &b.recs)?);
+            lines.push(h_line(t0.wrapping_add(life + 1), 0, &keys, &b.s, &b.name, b.ty, &b.recs)?);
+        }
+        3 => {
+            // upstream serves altered content on the second validation
+            resign(&mut b);
+            lines.push(h_line(t0, 0, &keys, &b.s, &b.name, b.ty, &b.recs)?);
+            let mut kp = Proof::Secure;
+            let mut b2 = Base { ki: b.ki, k: b.k.clone(), s: b.s.clone(), name: b.name.clone(), ty: b.ty, recs: b.recs.clone(), now: t0 };
+            let _ = mutate(&mut b2, &mut kp, r);
+            // the query stays the same RRset; owner / type changes of the key are not expressible through send
+            // (an RRSIG with another owner / type covered is grouped into another RRset by RrsetMap::new:
+            // those mutations are exercised by the pure part)
+            b2.name = b.name.clone();
+            b2.ty = b.ty;
+            b2.s.tc = b.ty;
+            if !same_name_ci(&b2.s.owner, &b.name) {
+                b2.s.owner = b.s.owner.clone();
+            }
+            for x in b2.recs.iter_mut() {
+                x.name = b.name.clone();
+                x.rtype = b.ty;
+                x.cls = 1;
+            }
+            let now2 = if r.chance(1, 2) { t0 } else { b2.now };
+            lines.push(h_line(now2, 0, &[b2.k.clone()], &b2.s, &b2.name, b2.ty, &b2.recs)?);
+            lines.push(h_line(t0, 0, &keys, &b.s, &b.name, b.ty, &b.recs)?);
+        }
+        4 => {
+            // letter case of a name inside RDATA changes between the two validations
+            let ty = *r.pick(&[47u16, 2, 15, 47]);
+            b.ty = ty;
+            b.s.tc = ty;
+            let next = c05::nm(*r.pick(&["B.Example.com.", "Host.example.COM.", "zz.Example.com."]));
+            let mk = |n: &N| match ty {
+                47 => {
+                    let mut raw = c05::wire(&n.labels);
+                    raw.extend([0u8, 1, 0x40]);
+                    RD::Op(raw)
+                }
+                2 => RD::Ns(n.clone()),
+                _ => RD::Mx(10, n.clone()),
+            };
+            b.recs = vec![Rec { name: b.name.clone(), rtype: ty, cls: 1, ttl, rd: mk(&next) }];
+            resign(&mut b);
+            lines.push(h_line(t0, 0, &keys, &b.s, &b.name, b.ty, &b.recs)?);
+            let flipped = c05::flip_case(r, &next, 100);
+            let recs2 = vec![Rec { name: b.name.clone(), rtype: ty, cls: 1, ttl, rd: mk(&flipped) }];
+            lines.push(h_line(t0, 0, &keys, &b.s, &b.name, b.ty, &recs2)?);
+        }
+        5 => {
+            // key-tag collisions: two bogus trust anchors with the same tag in front of the right key
+            resign(&mut b);
+            let mut ks: Vec<K> = all_keys().into_iter().filter(|k| k.alg == b.k.alg && k.pk != b.k.pk && ref_key_tag(&k.rdata()) == ref_key_tag(&b.k.rdata())).collect();
+            for k in ks.iter_mut() {
+                k.owner = b.k.owner.clone();
+            }
+            ks.truncate(r.range(1, 2) as usize);
+            if r.chance(1, 2) {
+                ks.push(b.k.clone());
+            } else {
+                ks.insert(0, b.k.clone());
+            }
+            lines.push(h_line(t0, 0, &ks, &b.s, &b.name, b.ty, &b.recs)?);
+        }
+        7 => {
+            // NSEC RRset whose RRSIG claims wildcard expansion (Labels below the owner's label count):
+            // correctly signed, still refused by verify_rrsig_with_keys; Labels equal: accepted
+            b.ty = 47;
+            b.s.tc = 47;
+            let mut raw = c05::wire(&c05::nm("z.example.com.").labels);
+            raw.extend([0u8, 1, 0x40]);
+            b.recs = vec![Rec { name: b.name.clone(), rtype: 47, cls: 1, ttl, rd: RD::Op(raw) }];
+            let full = b.s.labels;
+            for labels in [full.saturating_sub(1), full] {
+                b.s.labels = labels;
+                resign(&mut b);
+                lines.push(h_line(t0, 0, &keys, &b.s, &b.name, b.ty, &b.recs)?);
+            }
+        }
+        _ => {
+            // wrong key first (Bogus is cached), then the right key; and the reverse
+            resign(&mut b);
+            let other = real_key((b.ki + 1) % c05::sign_keys().len());
+            let wrong = K { owner: b.k.owner.clone(), ..other };
+            let (first, second) = if r.chance(1, 2) { (vec![wrong], keys.clone()) } else { (keys.clone(), vec![wrong]) };
+            lines.push(h_line(t0, 0, &first, &b.s, &b.name, b.ty, &b.recs)?);
+            lines.push(h_line(t0, 0, &second, &b.s, &b.name, b.ty, &b.recs)?);
+        }
+    }
+    Some(block(&cfg, lines))
+}
+
+/// brackets a history; the `begin` line names every key the block serves as a trust anchor
+fn block(cfg: &str, lines: Vec<String>) -> Vec<String> {
+    let mut tas: Vec<String> = vec![];
+    for l in &lines {
+        let t: Vec<&str> = l.split_whitespace().collect();
+        if t.len() > 4 && t[4] != "-" {
+            for k in t[4].split('|') {
+                let f: Vec<&str> = k.split(';').collect();
+                let e = format!("{}:{}", f[2], f[3]);
+                if !tas.contains(&e) {
+                    tas.push(e);
+                }
+            }
+        }
+    }
+    let mut out = vec![format!("begin ta={}{cfg}", tas.join(","))];
+    out.extend(lines);
+    out.push("end".into());
+    out
+}
+
+/// the replay of the finding, with real time passing: TTL 3600, signature valid for 10 s
+fn hand_histories() -> Vec<Vec<String>> {
+    let mut r = Rng::new(606);
+    let mut v = vec![];
+    let mk = |r: &mut Rng, ttl: u32, life: u32| {
+        let mut b = gen_base(r);
+        b.name = c05::nm("www.example.com.");
+        b.ty = 1;
+        b.recs = vec![
+            Rec { name: b.name.clone(), rtype: 1, cls: 1, ttl, rd: RD::A(vec![192, 0, 2, 1]) },
+            Rec { name: b.name.clone(), rtype: 1, cls: 1, ttl, rd: RD::A(vec![192, 0, 2, 2]) },
+        ];
+        b.k.owner = c05::nm("example.com.");
+        b.s = S { owner: b.name.clone(), cls: 1, ttl, tc: 1, alg: b.k.alg, labels: 3, ottl: ttl, exp: 1_700_000_000 + life, inc: 1_700_000_000 - 100, tag: ref_key_tag(&b.k.rdata()), signer: c05::nm("example.com."), sig: vec![] };
+        let bytes = b.s.ref_case(&b.name, 1, &b.recs).ref_signed_data().expect("ref");
+        b.s.sig = sign_with(b.ki, &bytes);
+        b
+    };
+    // (1) TTL 3600, RRSIG expires in 10 s: validate, +5 s, +20 s (validator clock only)
+    let b = mk(&mut r, 3600, 10);
+    let keys = vec![b.k.clone()];
+    let mut h = vec![];
+    for dt in [0u32, 5, 20] {
+        h.push(h_line(1_700_000_000 + dt, 0, &keys, &b.s, &b.name, b.ty, &b.recs).unwrap());
+    }
+    v.push(block("", h));
+    // (2) the same with real time passing: TTL 3600 entry is still live after 2 s, signature valid 1 s
+    let b = mk(&mut r, 3600, 1);
+    let keys = vec![b.k.clone()];
+    let mut h = vec![];
+    h.push(h_line(1_700_000_000, 0, &keys, &b.s, &b.name, b.ty, &b.recs).unwrap());
+    h.push(h_line(1_700_000_002, 2, &keys, &b.s, &b.name, b.ty, &b.recs).unwrap());
+    v.push(block("", h));
+    // (3) entry lifetime 1 s (TTL 1) does expire on the monotonic clock: fresh validation after 2 s
+    let b = mk(&mut r, 1, 600);
+    let keys = vec![b.k.clone()];
+    let mut h = vec![];
+    h.push(h_line(1_700_000_000, 0, &keys, &b.s, &b.name, b.ty, &b.recs).unwrap());
+    h.push(h_line(1_700_000_002, 2, &keys, &b.s, &b.name, b.ty, &b.recs).unwrap());
+    v.push(block("", h));
+    v
+}
+
+pub fn run(o: &Opts, rec: &mut Recorder) {
+    rec.rule = "vk: an RRset of a modelled or opaque type (1-3 records) signed with a real key (ED25519, ECDSA P-256/P-384, RSA SHA-256/512) over the reference RFC 4035 bytes, then one mutation (a bit / field of RRset, RRSIG or DNSKEY, another key, key proof, or the clock at the window edges ±1, ±2^31, wrap) — non-trivial when the verdict is Secure or exactly one acceptance condition fails; h: validate / move the validator clock / change what upstream serves / re-validate histories through DnssecDnsHandle::send — non-trivial when Secure or served from the validation cache; serial/tag/attl: edge and random values; distinct by case line".into();
+    for l in o.pre_lines.clone() {
+        exec(&l, rec);
+    }
+    rec.corpus_cases = rec.cases.len();
+    if o.replay_only {
+        return;
+    }
+    let mut r = Rng::new(o.seed);
+    // serial arithmetic: edges and random pairs
+    let edges = [0u32, 1, 2, 0x7FFF_FFFE, 0x7FFF_FFFF, 0x8000_0000, 0x8000_0001, 0xFFFF_FFFE, 0xFFFF_FFFF];
+    for a in edges {
+        for b in edges {
+            exec(&format!("serial {a} {b}"), rec);
+        }
+    }
+    for _ in 0..o.n(300, 100_000) {
+        let a = r.next() as u32;
+        let x = r.next() as u32;
+        let d = *r.pick(&[0u32, 1, 0x7FFF_FFFF, 0x8000_0000, 0x8000_0001, 0xFFFF_FFFF, x]);
+        exec(&format!("serial {a} {}", a.wrapping_add(d)), rec);
+    }
+    for k in all_keys() {
+        exec(&format!("tag {}", hex(&k.rdata())), rec);
+    }
+    for _ in 0..o.n(100, 5_000) {
+        let n = r.below(70) as usize;
+        let b = if r.chance(1, 4) { vec![0xFF; n] } else { r.bytes(n) };
+        exec(&format!("tag {}", hex(&b)), rec);
+    }
+    for _ in 0..o.n(200, 10_000) {
+        let v = |r: &mut Rng| {
+            let x = r.next() as u32;
+            *r.pick(&[0u32, 1, 10, 3600, 0x7FFF_FFFF, 0x8000_0000, 0xFFFF_FFFF, x])
+        };
+        exec(&format!("attl {} {} {} {}", v(&mut r), v(&mut r), v(&mut r), v(&mut r)), rec);
+    }
+    // pure part
+    for _ in 0..o.n(1500, 150_000) {
+        let mut rr = r.fork();
+        let g = catch(move || {
+            let mut b = gen_base(&mut rr);
+            let mut kp = Proof::Secure;
+            let lab = mutate(&mut b, &mut kp, &mut rr);
+            vk_line(&b, kp).map(|l| (lab, l))
+        });
+        match g {
+            Ok(Some((lab, l))) => {
+                rec.stat(&format!("mutation.{}", lab.split('.').next().unwrap_or("?")));
+                exec(&l, rec);
+            }
+            Ok(None) => rec.stat("generator.unbuildable"),
+            Err(e) => {
+                eprintln!("c06 generator panic: {e}");
+                rec.stat("generator.panic");
+            }
+        }
+    }
+    // history part
+    for h in hand_histories() {
+        for l in h {
+            exec(&l, rec);
+        }
+    }
+    for i in 0..o.n(250, 20_000) {
+        let mut rr = r.fork();
+        match catch(move || gen_history(&mut rr, i as u64 % 8)) {
+            Ok(Some(h)) => {
+                rec.stat(&format!("history.kind.{}", i % 8));
+                for l in h {
+                    exec(&l, rec);
+                }
+            }
+            Ok(None) => rec.stat("generator.unbuildable"),
+            Err(e) => {
+                eprintln!("c06 generator panic: {e}");
+                rec.stat("generator.panic");
+            }
+        }
+    }
 }
